@@ -18,9 +18,11 @@ func init() {
 		MinObligations: 60,
 		Technique:      "static analysis: who-may-call / who-may-write tables over the resolved program (finalization, commit step, lock state, step variable), guard dominance with path alternatives at every vote, lock, unlock, commit and proposal-adoption site, closure guards joined with the guards of the closure's creation site, must-pass-through of the lock record before the precommit",
 		LevelText:      "Decides that the code has, on every path, the rule-set Tendermint's agreement proof needs: (finalize) BlockManager.Finalize is called only from commitAndEnterNewHeight, which is reached only in the commit step with a complete block; the commit step is entered only through enterCommit, whose every call site holds a non-nil +2/3 part-set id taken from the precommit set of the round it passes; (lock) lock state is written only by _resetForNewHeight, handlePrevoteMessage, enterPrecommit and applyLockWAL; a lock is taken, and a non-nil precommit sent, only behind a +2/3 prevote polka of the current round for exactly that block, and the polka and block parts are written to and synced on the lock WAL before the precommit; a lock is released only behind a polka of a round later than the locked round for another block (or a nil/unknown polka of the current round); (prevote) a validator that is locked prevotes only its locked block — every other prevote, including the one sent from the block-import callback, is under `locked block is zero`, and the proposal is prevoted only if validated (or imported without error in the same height/round before precommit); (proposal) a proposal is adopted only from the round-robin proposer (height+round mod n) of the current height and round, once; (steps) the step changes only in beginStep and only forward inside a round; (callbacks) every timer/import/propose callback takes the consensus mutex first and acts only if height, round and step are still the ones it was created in.",
-		LevelNote:      "Not decided: that this rule-set implies agreement for every schedule with f < n/3 Byzantine validators — that is Tendermint's proof, a statement about all interleavings, not about the shape of the code; liveness and timing. The +2/3 threshold form is decided under C04, WAL replay under C02/C03, commit-vote verification under C05.",
+		LevelNote:      "Not decided: that this rule-set implies agreement for every schedule with f < n/3 Byzantine validators — that is Tendermint's proof, a statement about all interleavings, not about the shape of the code; liveness and timing. The tally bookkeeping and +2/3 threshold rules of C04 are re-run here (rule names C01.tally/…); WAL replay is decided under C02/C03, commit-vote verification under C05.",
 		Explanation:    "C01 rules: finalize-gate (K3+K1), lock-writers (K3), lock-on-polka (K1), lock-durable (K2), unlock-later-polka (K1), prevote-locked (K1 incl. closures), proposer (K1+K5), step-monotone (K1+K3), callbacks (K6+K1).",
 		Mutants: []Mutant{
+			{Name: "commit-keeps-own-complete-block", File: "consensus/consensus.go", Old: "\tcs.currentBlockParts.SetByPartSetID(partSetID)\n\n\tcs.notifySyncer()\n\n\tif !cs.currentBlockParts.IsComplete() {\n", New: "\tcs.notifySyncer()\n\n\tif !cs.currentBlockParts.IsComplete() {\n\t\tcs.currentBlockParts.SetByPartSetID(partSetID)\n", Desc: "a node holding a complete block of another id finalizes it instead of the precommitted one"},
+			{Name: "vote-replace-decrements-copy", File: "consensus/voteset.go", Old: "\t\t\t\tvs.counters[i].count--\n\t\t\t\tif vs.counters[i].count == 0 {", New: "\t\t\t\tc.count--\n\t\t\t\tif c.count == 0 {", Desc: "an equivocating validator inflates a block's tally"},
 			{Name: "unlock-on-current-round", File: "consensus/consensus.go", Old: "if cs.lockedRound < msg.Round && !cs.lockedBlockParts.IsZero()", New: "if cs.lockedRound < cs.round && !cs.lockedBlockParts.IsZero()", Desc: "an old polka releases a newer lock"},
 			{Name: "unlock-without-later", File: "consensus/consensus.go", Old: "if cs.lockedRound < msg.Round && !cs.lockedBlockParts.IsZero()", New: "if cs.lockedRound <= msg.Round && !cs.lockedBlockParts.IsZero()", Desc: "a polka of the locked round itself releases the lock"},
 			{Name: "lock-to-round-wal", File: "consensus/consensus.go", Old: "\t\tmsg.VoteList = prevotes.voteList()\n\t\tif err := cs.lockWAL.WriteMessage(msg); err != nil {", New: "\t\tmsg.VoteList = prevotes.voteList()\n\t\tif err := cs.roundWAL.WriteMessage(msg); err != nil {", Desc: "lock record written to the WAL that lock recovery does not read"},
@@ -226,6 +228,39 @@ func runC01(c *Ctx) {
 			ok = strings.HasSuffix(render(a[0]), "Round") && strings.HasSuffix(render(a[1]), "Type") && strings.HasPrefix(render(a[0]), "$1.") && strings.HasPrefix(render(a[1]), "$1.")
 		}
 		c.check(ok, "C01.finalize-gate", "a vote is counted in the set of its own round and type", hv.Pos(), "votesFor(msg.Round, msg.Type)", "heightVoteSet.add files the vote elsewhere")
+	}
+
+	// the block committed is the one the quorum precommitted: enterCommit installs
+	// the committed id before it looks at completeness or commits
+	if ec := c.mustFn(pk, "consensus", "enterCommit"); ec != nil {
+		var install ssa.Instruction
+		for _, cs := range c.calls(ec, byCallee("blockPartSet).SetByPartSetID")) {
+			r, a := callArgs(cs.Common())
+			if strings.HasSuffix(render(r), "$r.currentBlockParts") && render(a[0]) == "$1" {
+				install = cs.Instr
+			}
+		}
+		if !c.check(install != nil, "C01.finalize-gate", "enterCommit installs the committed part-set id", ec.Pos(), "currentBlockParts.SetByPartSetID(partSetID)", "enterCommit does not switch the current block to the committed id") {
+		} else {
+			for _, cs := range c.calls(ec, byCallee("consensus).commitAndEnterNewHeight", "blockPartSet).IsComplete", "blockPartSet).AddPartFromBytes")) {
+				c.check(dominatesInstr(install, cs.Instr), "C01.finalize-gate", "enterCommit: "+methodName(cs.Common())+" sees the committed block, on every path", cs.Pos(), "SetByPartSetID(partSetID) dominates", "the committed id is installed only on some paths: a node that already holds a complete block of another id finalizes that block instead of the one the quorum precommitted")
+			}
+		}
+		for _, fs := range fieldStores([]*ssa.Function{ec}, "consensus", "commitRound") {
+			c.check(render(fs.Store.Val) == "$2", "C01.finalize-gate", "commit round is the round of the quorum", fs.Store.Pos(), "round", "commitRound = "+render(fs.Store.Val))
+		}
+	}
+
+	// the +2/3 decisions all of this rests on: tally bookkeeping and threshold form (rules of C04)
+	{
+		sub := &Ctx{Prop: c.Prop, Tier: c.Tier, L: c.L}
+		runC04(sub)
+		for _, o := range sub.obs {
+			o2 := *o
+			o2.Rule = "C01.tally/" + strings.TrimPrefix(o.Rule, "C04.")
+			c.obs = append(c.obs, &o2)
+		}
+		c.callSites += sub.callSites
 	}
 
 	// ------------------------------------------------------------ lock-writers
